@@ -1,0 +1,59 @@
+//go:build verif
+
+package gpkg
+
+import (
+	"database/sql"
+
+	"github.com/go-spatial/geom"
+	"github.com/go-spatial/geom/encoding/gpkg"
+	"github.com/mattn/go-sqlite3"
+)
+
+// The verification sandbox has no libspatialite. Under the build tag "verif" a database/sql driver
+// named "spatialite" is registered that is plain SQLite plus the five SQL functions the GeoPackage
+// rtree triggers need, so go-spatial's gpkg.Open (which looks the driver up by that name) works.
+func init() {
+	for _, d := range sql.Drivers() {
+		if d == gpkg.SPATIALITE {
+			return
+		}
+	}
+	extentOf := func(blob []byte) *geom.Extent {
+		sb, err := gpkg.DecodeGeometry(blob)
+		if err != nil || sb == nil || sb.Geometry == nil {
+			return nil
+		}
+		ext, err := geom.NewExtentFromGeometry(sb.Geometry)
+		if err != nil {
+			return nil
+		}
+		return ext
+	}
+	ord := func(i int) func([]byte) interface{} {
+		return func(blob []byte) interface{} {
+			ext := extentOf(blob)
+			if ext == nil {
+				return nil
+			}
+			return ext[i]
+		}
+	}
+	sql.Register(gpkg.SPATIALITE, &sqlite3.SQLiteDriver{
+		ConnectHook: func(conn *sqlite3.SQLiteConn) error {
+			if err := conn.RegisterFunc("ST_IsEmpty", func(blob []byte) bool { return extentOf(blob) == nil }, true); err != nil {
+				return err
+			}
+			if err := conn.RegisterFunc("ST_MinX", ord(0), true); err != nil {
+				return err
+			}
+			if err := conn.RegisterFunc("ST_MinY", ord(1), true); err != nil {
+				return err
+			}
+			if err := conn.RegisterFunc("ST_MaxX", ord(2), true); err != nil {
+				return err
+			}
+			return conn.RegisterFunc("ST_MaxY", ord(3), true)
+		},
+	})
+}
